@@ -3,12 +3,13 @@
    kernel's primitive float/int types and operations for them, nothing else).
    Model: model/CssFormatStream.v (stream formatter), model/CssExpandStream.v (expand -> stream),
    model/CssFormat.v (string formatter of C05/C06/C07), model/CssResolve.v.
-   Proofs: proofs/CssFormatStreamEq.v, proofs/CssExpandPositions.v, proofs/CssWrapFields.v. *)
+   Proofs: proofs/CssFormatStreamEq.v, proofs/CssExpandPositions.v, proofs/CssExpandFull.v, proofs/CssWrapFields.v,
+   proofs/CssNamesTokenizer.v, proofs/CssNamesParser.v, proofs/CssNamesResolve.v. *)
 From Coq Require PrimFloat.
 From Emmet Require Import lib.Base lib.StyleLib model.CssTokenizer model.CssParser model.CssSnippets model.CssResolve
      model.CssFormat model.MarkupConvert model.OutStream model.CssFormatStream model.CssExpandStream
      proofs.OutStreamProofs proofs.CssFormatStream proofs.CssFormatFields proofs.CssFormatStreamEq
-     proofs.CssExpandPositions proofs.CssWrapFields.
+     proofs.CssExpandPositions proofs.CssWrapFields proofs.CssNamesResolve proofs.CssExpandFull.
 
 (* The stream formatter writes exactly the string of the string formatter: for EVERY configuration and EVERY
    property list, so every theorem of C05 / C06 / C07 about CssFormat.stringify / expand_css is a theorem about
@@ -45,28 +46,36 @@ Theorem C13_css_expand_offsets_exact cfg abbr o a e b :
 Proof. exact (expand_css_offsets_lemma cfg abbr o a e b). Qed.
 Print Assumptions C13_css_expand_offsets_exact.
 
-(* FULL statement (line and column as read off the returned string, for every abbreviation):
-     forall cfg abbr o a e b, fmt_lf (cf_fmt (fmt_of cfg)) -> lf_count (c_after cfg) = 0 ->
-       expand_css_stream cfg abbr = Ok o -> chron o = a ++ e :: b ->
-       expand_css cfg abbr = Ok (text_of a ++ ev_text e ++ text_of b) /\ ev_off e = length (text_of a) /\
-       ev_line e = line_of (text_of a) /\ ev_col e = column_of (text_of a).
-   Proved here with the resolved property list [nodes] visible and the hypothesis [css_raw_ok] on it (no
-   line feed in the name of a FunctionCall, none in stylesheet.after).  MISSING for the full statement: the
-   invariant "every FunctionCall name in the output of parse_with is free of line feeds" through the
-   tokenizer (literals are runs of word characters), the parser, the snippet table conversion and the
-   resolver (keyword matches, linear-gradient).  The check evaluates css_raw_ok on the resolved properties
-   of every generated case (always true so far). *)
-Theorem C13_css_expand_positions_exact_partial cfg abbr sn nodes a e b :
-  convert_snippets (c_snippets cfg) = Ok sn -> parse_with cfg sn abbr = Ok nodes ->
-  fmt_lf (cf_fmt (fmt_of cfg)) -> css_raw_ok (fmt_of cfg) nodes ->
-  chron (css_stream (fmt_of cfg) nodes) = a ++ e :: b ->
-  expand_css_stream cfg abbr = Ok (css_stream (fmt_of cfg) nodes) /\
+(* END TO END, full statement of the position clause for stylesheet expansions: ALL abbreviation strings, ALL
+   configurations whose newline option is an LF-free prefix followed by LF ("\n", "\r\n"), whose indent and
+   baseIndent have no LF, and whose stylesheet.after has no LF (it is pushed raw).  Every output.text / output.field
+   invocation of the run is given the offset, line and column at which the string it returns sits in the string
+   expand returns (line = number of line feeds before it, column = characters after the last of them).
+   The function names of the resolved properties need no hypothesis: they are Literal token values of the
+   abbreviation or of a snippet definition, or "linear-gradient", and no Literal token of the tokenizer contains
+   a line feed (proofs/CssNamesTokenizer.v, CssNamesParser.v, CssNamesResolve.v, for every input). *)
+Theorem C13_css_expand_positions_exact cfg abbr o a e b :
+  fmt_lf (cf_fmt (fmt_of cfg)) -> lf_count (c_after cfg) = 0 ->
+  expand_css_stream cfg abbr = Ok o -> chron o = a ++ e :: b ->
   expand_css cfg abbr = Ok (text_of a ++ ev_text e ++ text_of b) /\
   ev_off e = length (text_of a) /\
   ev_line e = line_of (text_of a) /\
   ev_col e = column_of (text_of a).
-Proof. exact (expand_css_positions_lemma cfg abbr sn nodes a e b). Qed.
-Print Assumptions C13_css_expand_positions_exact_partial.
+Proof. exact (expand_css_positions_full cfg abbr o a e b). Qed.
+Print Assumptions C13_css_expand_positions_exact.
+
+(* (1) of the task, end to end: the stream of every stylesheet expansion is reachable *)
+Theorem C13_css_expand_reachable cfg abbr o :
+  lf_count (c_after cfg) = 0 -> expand_css_stream cfg abbr = Ok o -> reach (cf_fmt (fmt_of cfg)) o.
+Proof. exact (expand_css_reach cfg abbr o). Qed.
+Print Assumptions C13_css_expand_reachable.
+
+(* the invariant behind it: stylesheet.parse never produces a FunctionCall whose name contains a line feed *)
+Theorem C13_css_resolved_names_lf_free cfg sn abbr nodes :
+  convert_snippets (c_snippets cfg) = Ok sn -> parse_with cfg sn abbr = Ok nodes ->
+  lf_count (c_after cfg) = 0 -> css_raw_ok (fmt_of cfg) nodes.
+Proof. exact (parse_with_raw_ok cfg sn abbr nodes). Qed.
+Print Assumptions C13_css_resolved_names_lf_free.
 
 (* Tabstops GENERATED for a property resolved from a snippet: resolve_as_property wraps the tokens of the
    snippet's default value with wrap_with_field, one fresh counter per comma-separated value.  For every value
